@@ -824,4 +824,8 @@ impl Prop for C18 {
     fn exec_case(&self, ops: &[String]) -> CaseResult {
         exec(ops)
     }
+    fn end(&self) {
+        // the glue family's agent directory (created on the first `flush` of the process)
+        let _ = std::fs::remove_dir_all(format!("{TMP_ROOT}/c18-{}", std::process::id()));
+    }
 }
